@@ -662,6 +662,11 @@ def standard_script(obj, node, r, want):
             qs.append(('getk', k))
         qs.append(('keys',))
         qs.append(itk)
+    # in about a third of the scripts a few index accesses (in arbitrary order) come before everything else: stages with hidden
+    # state (caches ...) are then filled out of index order before they are iterated for the first time
+    if 'index' in want and n and r.random() < 0.35:
+        pre = [('geti', i) for i in r.sample(range(-n, n), min(2 * n, r.randint(1, 3)))]
+        qs = pre + qs
     if 'iter' in want and not is_cycle:
         qs.append(('copyiter', False))
         qs.append(('copyiter', r.random() < 0.3, 'freeze'))
